@@ -1061,6 +1061,57 @@ def truthiness_tests(e):
     return out
 
 
+def value_conditions(f):
+    """every place in function `f` where a *value* decides a branch: the atoms of if / while / conditional-expression tests and the
+    non-final operands of `or` / `and` used for their value, as far as they are neither comparisons nor predicates.  `any(v)` / `v.any()`
+    / `all(v)` / `bool(v)` count as the truth value of `v` (an array holding the index 0 is "nothing found").  Returns
+    [(the value expression, the controlling node)]."""
+    out = []
+
+    def atoms(t):
+        for conj in literal_dnf(t):
+            for a, pol in conj:
+                yield a
+
+    def value_of(a):
+        if isinstance(a, (ast.Compare, ast.Constant)):
+            return None
+        if isinstance(a, ast.Call):
+            nm = a.func.attr if isinstance(a.func, ast.Attribute) else (a.func.id if isinstance(a.func, ast.Name) else '')
+            if nm in ('any', 'all', 'bool', 'count_nonzero'):
+                if a.args:
+                    return a.args[0]
+                if isinstance(a.func, ast.Attribute):
+                    return a.func.value
+                return None
+            if nm in PREDICATE_CALLS or is_marker(a):
+                return None
+        return a
+    for n in all_nodes(f):
+        tests = []
+        if isinstance(n, (ast.If, ast.While, ast.IfExp)):
+            tests = [n.test]
+        elif isinstance(n, ast.BoolOp):
+            p_ = getattr(n, '_parent', None)
+            as_test = isinstance(p_, (ast.If, ast.While, ast.IfExp)) and getattr(p_, 'test', None) is n
+            as_test = as_test or isinstance(p_, ast.BoolOp) or (isinstance(p_, ast.UnaryOp) and isinstance(p_.op, ast.Not))
+            if not as_test:
+                tests = list(n.values[:-1])
+        elif isinstance(n, ast.comprehension):
+            tests = list(n.ifs)
+        elif isinstance(n, ast.Assert):
+            tests = []
+        for t in tests:
+            try:
+                for a in atoms(t):
+                    v = value_of(a)
+                    if v is not None:
+                        out.append((v, n))
+            except Inconclusive:
+                continue
+    return out
+
+
 # ---------------------------------------------------------------------------------------------------------------------
 # partial evaluation of table look-ups and comprehensions over literal tables
 
